@@ -88,3 +88,44 @@ func verifHarness_C15_rune(which, pad int) {
 	}
 	verifC15(s, which)
 }
+
+// C15 on every reserved keyword of the documentation (list in zz_verif_h_c14.go),
+// in upper, lower and per-letter symbolic case (first three letters): as an
+// identifier name it must come back quoted and lex as one identifier; as a
+// string / bytes value it must survive.
+func verifHarness_C15_kw(which int) {
+	k := verifChoice(len(verifReserved))
+	for i := range verifReserved {
+		if k == i {
+			k = i
+			break
+		}
+	}
+	w := verifReserved[k]
+	s := ""
+	mode := verifChoice(3)
+	for i := 0; i < len(w); i++ {
+		up := w[i : i+1]
+		lo := up
+		if 'A' <= w[i] && w[i] <= 'Z' {
+			lo = string([]byte{w[i] + 32})
+		}
+		switch {
+		case mode == 0:
+			s += up
+		case mode == 1:
+			s += lo
+		case i < 3:
+			s += verifSel(verifBool(), up, lo)
+		default:
+			s += lo
+		}
+	}
+	if which == 2 {
+		q := token.QuoteSQLIdent(s)
+		if len(q) == 0 || q[0] != '`' {
+			verifFail("C15/keyword-returned-unquoted", w)
+		}
+	}
+	verifC15(s, which)
+}
